@@ -23,6 +23,10 @@ SPEC = os.path.join(VERIF, "spec")
 UUID = "11112222-3333-4444-5555-666677778888"
 HASH_SEED = "aaaabbbb-cccc-dddd-eeee-ffff00001111"
 KNOWN_DEV_KEY = "rsv_gdt_survives_metabg_switch"
+# named deviations of the code that TLC recognises in a second pass over the refused lines: (cfg of the pass, finding key, text)
+DEVIATIONS = [("Trace_Geometry_dev.cfg", KNOWN_DEV_KEY, "reserved GDT blocks stored by -E resize= survive the meta_bg switch"),
+              ("Trace_Geometry_dev2.cfg", "rblocks_not_rescaled_after_cluster_rounding",
+               "bigalloc: the block count is rounded down to a cluster boundary but s_r_blocks_count keeps the value computed from the requested count and exceeds half of the filesystem")]
 
 FEATSETS = [
     # (label, fstype, -O string, model?)
@@ -507,18 +511,22 @@ def run(tier):
         bad = set(res["bad"])
         accepted = [l for l in lines if l["rc"] == 0]
         # second pass over the refused lines: does the line show exactly a named deviation of the code (Geometry c.dev)?
-        knowndev = set()
-        if bad:
-            order = sorted(bad)
+        knowndev = {}
+        for devcfg, devkey, devwhat in DEVIATIONS:
+            order = sorted(bad - set(knowndev))
+            if not order:
+                break
             res2 = tracecheck.validate_lines([jl[i] for i in order], os.path.join(SPEC, "Trace_Geometry.tla"),
-                                             os.path.join(SPEC, "Trace_Geometry_dev.cfg"), work, chunk=100)
+                                             os.path.join(SPEC, devcfg), work, chunk=100)
             if res2["broken"]:
-                die_broken("TLC failed on the deviation pass: %s\n%s" % (res2["broken"][0]["error"], res2["broken"][0]["tail"][-1500:]))
-            knowndev = set(order[k] for k in range(len(order)) if k not in set(res2["bad"]))
+                die_broken("TLC failed on the deviation pass %s: %s\n%s" % (devcfg, res2["broken"][0]["error"], res2["broken"][0]["tail"][-1500:]))
+            for k in range(len(order)):
+                if k not in set(res2["bad"]):
+                    knowndev[order[k]] = (devkey, devwhat)
         for bi in sorted(bad):
             l = lines[bi]
             if bi in knowndev:
-                vd.violation(KNOWN_DEV_KEY, "mke2fs %s: reserved GDT blocks stored by -E resize= survive the meta_bg switch (e2fsck -fn exit %d)" % (l["cmd"], l["fsck"]), {"line": l})
+                vd.violation(knowndev[bi][0], "mke2fs %s: %s (e2fsck -fn exit %d)" % (l["cmd"], knowndev[bi][1], l["fsck"]), {"line": l})
                 continue
             why = []
             if l["fsck"] != 0: why.append("e2fsck -fn exit %d" % l["fsck"])
